@@ -10,8 +10,9 @@ Model of `src/integrate/functions.rs` (`trapz`, `romberg`, `quad5`) and `src/int
 * The Rust `romberg` fills the whole first column (all `nmax` levels, `2^(nmax-1)` evaluations) before
   the Richardson sweep; the integrand is a pure function, so the model interleaves column and sweep
   (same values, same operation order inside every entry).  `Matrix::zeros(0,0)[[0,0]]` panics:
-  `nmax = 0` is `none`.  `2_u32.pow(n-1)` / `2*k` overflow `u32` from level 32 on, after 2^31
-  evaluations: levels above 31 are outside the modelled range (`none`).
+  `nmax = 0` is `none` (this IS the panic).  `2*k` overflows `u32` only from `nmax = 33` on, after 2^31
+  evaluations; the model stops earlier: `nmax > 31` returns `none` meaning NOT MODELLED (not a panic —
+  the executor refuses such lines, they are never compared).
 * Integrands are closures in Rust; both executors implement the same catalogue `Integrand`.
 -/
 namespace Cv
